@@ -377,6 +377,27 @@ class Run:
                                f"sp={hd.obj.statepoint()} (expected {cid(sp)} / {sp})")
             hd.loaded = True
             self.probe("caller_mutated")
+            jid = cid(sp)
+            if jid in self.model[pi] and not self.decoys[pi] and not self.emptydirs[pi]:
+                # ... nor what the same session finds for that job by id, by prefix and by iteration
+                proj = self.projects[pi]
+                found = {"full id": lambda: proj.open_job(id=jid),
+                         "iteration": lambda: next(j for j in proj if j.id == jid)}
+                L = 1
+                while L < 32 and sum(1 for x in self.model[pi] if x.startswith(jid[:L])) > 1:
+                    L += 1
+                found[f"prefix[{L}]"] = lambda: proj.open_job(id=jid[:L])
+                got = {}
+                for how, fn in found.items():
+                    exc2, _ = self.call(lambda: got.__setitem__("j", fn()))
+                    self.expect(exc2, None, op, "C02")
+                    j = got["j"]
+                    if j.id != jid or not same(j.statepoint(), sp) or not same(dict(j.cached_statepoint), sp):
+                        raise Mismatch("C02", "C02:lookup-after-caller-mutation",
+                                       f"after mutating the mapping given to open_job, look-up by {how} in the "
+                                       f"same session gives id={j.id} sp={j.statepoint()} (expected {sp})",
+                                       "C02:lookup-after-caller-mutation")
+                self.probe("caller_mutated_lookup")
 
     def _open(self, pi, caller, sp=None):
         job = self.projects[pi].open_job(caller)
@@ -1132,6 +1153,12 @@ class Run:
                     raise Mismatch(P, "C02:open_job:prefix-lookup",
                                    f"open_job(id={pre!r}) -> {got}, expected {want} (ids sharing the "
                                    f"prefix: {len(cand)})", "C02:open_job:prefix-lookup-wrong")
+                if got == jid and L in (1, 2, 8, 31, 32) and jid not in self.emptydirs[pi]:
+                    spv = j.statepoint()
+                    if not same(spv, self.model[pi][jid]["sp"]):
+                        raise Mismatch(P, "C02:open_job:lookup-statepoint-differs",
+                                       f"open_job(id={pre!r}) gives state point {spv}, expected "
+                                       f"{self.model[pi][jid]['sp']}", "C02:open_job:lookup-statepoint-differs")
             # near-miss: same prefix, different tail
             for L in (4, 16, 31):
                 nm = jid[:L] + ("0" if jid[L] != "0" else "1") * (32 - L)
